@@ -10,7 +10,9 @@ regime: `osu_to_sm_objects_partial`; every source into osu / Quaver from the rea
 `qua_to_sm_end_to_end_partial`, `from_abstract_to_sm_partial`; StepMania → osu / Quaver from one `#NOTES` value and the
 parsed header values: `sm_to_osu_end_to_end_partial`, `sm_to_qua_end_to_end_partial`; BMS → osu / Quaver, objects, from the
 file's lines: `bms_to_osu_objects_partial`, `bms_to_qua_objects_partial`; what each `_partial` lacks is spelled out at the
-theorem; into BMS and the off-grid regime into StepMania are NOT proved as one theorem):  for every source file `t` of format A inside the domain of A's reader property, every legal
+theorem; osu / Quaver / any source → BMS, objects in the exact regime, shift parameter included:
+`osu_to_bms_objects_partial`, `qua_to_bms_objects_partial`, `convert_write_bms_objects_partial`; the off-grid regime into
+StepMania / BMS and the tempo timeline into BMS are NOT proved as one theorem):  for every source file `t` of format A inside the domain of A's reader property, every legal
 target B and key count B supports,
     `CloseTo eps (res B) (gridExact a) shift a (abs_B (denote_B (write_B (convert_AB (read_A t)))))`   with `a = abs_A (denote_A t)`,
 `res osu = res qua = ms`, `res sm = beat (1/96) (1/192)`, `res bms = beat (1/192) (1/192)`.
@@ -49,6 +51,7 @@ import Reamber.Lemmas.PipelineGeneric
 import Reamber.Lemmas.PipelineSMRead
 import Reamber.Lemmas.PipelineBMS
 import Reamber.Props.C04
+import Reamber.Props.C05
 import Reamber.Props.C07
 import Reamber.Props.C03
 import Reamber.Props.C01
@@ -1474,5 +1477,399 @@ example :
     simp only [onGridAux, e1]
     rw [if_pos (by decide +kernel), f2]
     exact hz
+
+/-! ## … → BMS: convert, then write, objects in the exact regime (C08 + C05 chained over `AChart`) -/
+
+theorem flatMap_filter_perm {α} (key : α → Nat) (ks : List Nat) (hnd : ks.Nodup) (l : List α)
+    (hmem : ∀ a ∈ l, key a ∈ ks) : (ks.flatMap (fun k => l.filter (fun a => decide (key a = k)))).Perm l := by
+  induction ks generalizing l with
+  | nil =>
+    cases l with
+    | nil => simp
+    | cons a t => exact absurd (hmem a (by simp)) (by simp)
+  | cons k ks' ih =>
+    have hk : k ∉ ks' := (List.nodup_cons.mp hnd).1
+    have hnd' : ks'.Nodup := (List.nodup_cons.mp hnd).2
+    rw [List.flatMap_cons]
+    have htail : ks'.flatMap (fun k' => l.filter (fun a => decide (key a = k'))) =
+        ks'.flatMap (fun k' => (l.filter (fun a => !decide (key a = k))).filter (fun a => decide (key a = k'))) := by
+      apply List.flatMap_congr
+      intro k' hk'
+      rw [List.filter_filter]
+      apply List.filter_congr
+      intro a _
+      by_cases h : key a = k'
+      · have : k' ≠ k := by rintro rfl; exact hk hk'
+        simp [h, this]
+      · simp [h]
+    rw [htail]
+    have ih' := ih hnd' (l.filter (fun a => !decide (key a = k))) (by
+      intro a ha
+      obtain ⟨hal, hne⟩ := List.mem_filter.mp ha
+      have := hmem a hal
+      simp only [Bool.not_eq_true', decide_eq_false_iff_not] at hne
+      rcases List.mem_cons.mp this with h | h
+      · exact absurd h hne
+      · exact h)
+    exact (List.Perm.append_left _ ih').trans (List.filter_append_perm _ l)
+
+open Reamber.BMS Reamber.PermInv in
+theorem col_mem_of_channelOf (lay : BMS.Layout) (col : Nat) (h : (BMS.channelOf lay col).isSome = true) :
+    col ∈ lay.lanes.map (·.2) := by
+  unfold BMS.channelOf at h
+  rw [Option.isSome_map, List.find?_isSome] at h
+  obtain ⟨p, hp, hpc⟩ := h
+  simp only [decide_eq_true_eq] at hpc
+  exact List.mem_map.mpr ⟨p, List.mem_reverse.mp hp, hpc⟩
+
+open Reamber.BMS Reamber.PermInv in
+theorem atoms_hits_of_hits {α} (F : Rat → Snap) (ln : BMS.Bytes) (so : BMS.Bytes → BMS.Bytes) (col : Nat) (l : List α)
+    (f : α → Rat) (g : α → BMS.Bytes) :
+    ((l.map (fun h => TAtom.hit (f h) (g h))).map (TAtom.toAtom F ln)).flatMap (Atom.hits so col) =
+      l.map (fun h => (⟨col, so (g h), posOf (F (f h))⟩ : SHit)) := by
+  induction l with
+  | nil => rfl
+  | cons a t ih => simp only [List.map_cons, List.flatMap_cons, TAtom.toAtom, Atom.hits, ih, List.cons_append, List.nil_append]
+
+open Reamber.BMS Reamber.PermInv in
+theorem atoms_hits_of_holds {α} (F : Rat → Snap) (ln : BMS.Bytes) (so : BMS.Bytes → BMS.Bytes) (col : Nat) (l : List α)
+    (f f' : α → Rat) (g : α → BMS.Bytes) :
+    ((l.map (fun h => TAtom.hold (f h) (f' h) (g h))).map (TAtom.toAtom F ln)).flatMap (Atom.hits so col) = [] := by
+  induction l with
+  | nil => rfl
+  | cons a t ih => simp only [List.map_cons, List.flatMap_cons, TAtom.toAtom, Atom.hits, ih, List.cons_append, List.nil_append]
+
+open Reamber.BMS Reamber.PermInv in
+theorem atoms_holds_of_hits {α} (F : Rat → Snap) (ln : BMS.Bytes) (so : BMS.Bytes → BMS.Bytes) (col : Nat) (l : List α)
+    (f : α → Rat) (g : α → BMS.Bytes) :
+    ((l.map (fun h => TAtom.hit (f h) (g h))).map (TAtom.toAtom F ln)).flatMap (Atom.holds so col) = [] := by
+  induction l with
+  | nil => rfl
+  | cons a t ih => simp only [List.map_cons, List.flatMap_cons, TAtom.toAtom, Atom.holds, ih, List.cons_append, List.nil_append]
+
+open Reamber.BMS Reamber.PermInv in
+theorem atoms_holds_of_holds {α} (F : Rat → Snap) (ln : BMS.Bytes) (so : BMS.Bytes → BMS.Bytes) (col : Nat) (l : List α)
+    (f f' : α → Rat) (g : α → BMS.Bytes) :
+    ((l.map (fun h => TAtom.hold (f h) (f' h) (g h))).map (TAtom.toAtom F ln)).flatMap (Atom.holds so col) =
+      l.map (fun h => (⟨col, so (g h), posOf (F (f h)), posOf (F (f' h))⟩ : SHold)) := by
+  induction l with
+  | nil => rfl
+  | cons a t ih => simp only [List.map_cons, List.flatMap_cons, TAtom.toAtom, Atom.holds, ih, List.cons_append, List.nil_append]
+
+open Reamber.BMS Reamber.PermInv in
+/-- **the written BMS file's denotation holds the chart's objects (exact regime)** — the lane-by-lane conclusion of C05
+`bms_write_read` read on the abstract chart: when every written position is read back at its own time (`hexact`: what
+`bms_write_read` gives for times on the snap grid), the denotation's hits and holds are, as multisets, exactly the
+chart's `(time, column)` / `(time, column, tail − time)` rows. -/
+theorem bms_denoted_objects_exact (cs : List BcSnap) (lay : BMS.Layout) (hnd : (lay.lanes.map (·.2)).Nodup)
+    (dflt : BMS.Bytes) (c : BMS.WChart)
+    (hcolH : ∀ h ∈ c.hits, h.col ∈ lay.lanes.map (·.2)) (hcolL : ∀ h ∈ c.holds, h.col ∈ lay.lanes.map (·.2))
+    (items : BMS.Bytes × Nat → List TAtom)
+    (hitems : ∀ lane ∈ lay.lanes, (items lane).Perm (laneItems c dflt lane.2))
+    (d : BMS.Denotation) (so : BMS.Bytes → BMS.Bytes)
+    (hsh : d.shits = lay.lanes.flatMap (fun lane => ((items lane).map (TAtom.toAtom (posFn cs) c.lnEnd)).flatMap
+      (Atom.hits so lane.2)))
+    (hsl : d.sholds = lay.lanes.flatMap (fun lane => ((items lane).map (TAtom.toAtom (posFn cs) c.lnEnd)).flatMap
+      (Atom.holds so lane.2)))
+    (hh : d.hits = d.shits.map (fun h => ⟨h.col, h.sample, timeAt 0 d.tempo h.snap⟩))
+    (hl : d.holds = d.sholds.map (fun h => ⟨h.col, h.sample, timeAt 0 d.tempo h.head,
+      timeAt 0 d.tempo h.tail - timeAt 0 d.tempo h.head⟩))
+    (hexact : ∀ lane ∈ lay.lanes, ∀ a ∈ items lane, ∀ t ∈ a.times, timeAt 0 d.tempo (posOf (posFn cs t)) = t) :
+    (ofBMS d).hits.Perm (c.hits.map (fun h => (h.offset, (h.col : Int)))) ∧
+    (ofBMS d).holds.Perm (c.holds.map (fun h => (h.offset, (h.col : Int), h.tail - h.offset))) := by
+  constructor
+  · -- hits
+    have e1 : (ofBMS d).hits = lay.lanes.flatMap (fun lane =>
+        (((items lane).map (TAtom.toAtom (posFn cs) c.lnEnd)).flatMap (Atom.hits so lane.2)).map
+          (fun h => (timeAt 0 d.tempo h.snap, (h.col : Int)))) := by
+      rw [show (ofBMS d).hits = d.hits.map (fun h => (h.offset, (h.col : Int))) from rfl, hh, hsh, List.map_map,
+        List.map_flatMap]
+      rfl
+    rw [e1]
+    have hlane : ∀ lane ∈ lay.lanes,
+        ((((items lane).map (TAtom.toAtom (posFn cs) c.lnEnd)).flatMap (Atom.hits so lane.2)).map
+          (fun h => (timeAt 0 d.tempo h.snap, (h.col : Int)))).Perm
+        ((c.hits.filter (fun h => decide (h.col = lane.2))).map (fun h => (h.offset, (h.col : Int)))) := by
+      intro lane hlane
+      have hp := ((((hitems lane hlane).map (TAtom.toAtom (posFn cs) c.lnEnd)).flatMap_right
+        (Atom.hits so lane.2))).map (fun h : SHit => (timeAt 0 d.tempo h.snap, (h.col : Int)))
+      refine hp.trans (List.Perm.of_eq ?_)
+      simp only [laneItems, List.map_append, List.flatMap_append, atoms_hits_of_hits, atoms_hits_of_holds,
+        List.append_nil, List.map_nil]
+      rw [List.map_map]
+      apply List.map_congr_left
+      intro h hmem
+      obtain ⟨hc, hcol⟩ := List.mem_filter.mp hmem
+      simp only [decide_eq_true_eq] at hcol
+      have hin : TAtom.hit h.offset (sampleId c.samples dflt h.sample) ∈ items lane := by
+        refine (hitems lane hlane).mem_iff.mpr ?_
+        simp only [laneItems, List.mem_append, List.mem_map]
+        exact Or.inl ⟨h, List.mem_filter.mpr ⟨hc, by simpa using hcol⟩, rfl⟩
+      have := hexact lane hlane _ hin h.offset (by simp [TAtom.times])
+      simp only [Function.comp, this, hcol]
+    refine (List.Perm.flatMap_left _ hlane).trans ?_
+    have e2 : lay.lanes.flatMap (fun lane => (c.hits.filter (fun h => decide (h.col = lane.2))).map
+        (fun h => (h.offset, (h.col : Int)))) =
+        ((lay.lanes.map (·.2)).flatMap (fun k => c.hits.filter (fun h => decide (h.col = k)))).map
+          (fun h => (h.offset, (h.col : Int))) := by
+      simp only [List.map_flatMap, List.flatMap_map]
+    rw [e2]
+    exact (flatMap_filter_perm (fun h : HitOut => h.col) _ hnd c.hits hcolH).map _
+  · -- holds
+    have e1 : (ofBMS d).holds = lay.lanes.flatMap (fun lane =>
+        (((items lane).map (TAtom.toAtom (posFn cs) c.lnEnd)).flatMap (Atom.holds so lane.2)).map
+          (fun h => (timeAt 0 d.tempo h.head, (h.col : Int), timeAt 0 d.tempo h.tail - timeAt 0 d.tempo h.head))) := by
+      rw [show (ofBMS d).holds = d.holds.map (fun h => (h.offset, (h.col : Int), h.length)) from rfl, hl, hsl,
+        List.map_map, List.map_flatMap]
+      rfl
+    rw [e1]
+    have hlane : ∀ lane ∈ lay.lanes,
+        ((((items lane).map (TAtom.toAtom (posFn cs) c.lnEnd)).flatMap (Atom.holds so lane.2)).map
+          (fun h => (timeAt 0 d.tempo h.head, (h.col : Int), timeAt 0 d.tempo h.tail - timeAt 0 d.tempo h.head))).Perm
+        ((c.holds.filter (fun h => decide (h.col = lane.2))).map
+          (fun h => (h.offset, (h.col : Int), h.tail - h.offset))) := by
+      intro lane hlane
+      have hp := ((((hitems lane hlane).map (TAtom.toAtom (posFn cs) c.lnEnd)).flatMap_right
+        (Atom.holds so lane.2))).map
+          (fun h : SHold => (timeAt 0 d.tempo h.head, (h.col : Int), timeAt 0 d.tempo h.tail - timeAt 0 d.tempo h.head))
+      refine hp.trans (List.Perm.of_eq ?_)
+      simp only [laneItems, List.map_append, List.flatMap_append, atoms_holds_of_hits, atoms_holds_of_holds,
+        List.nil_append, List.map_nil]
+      rw [List.map_map]
+      apply List.map_congr_left
+      intro h hmem
+      obtain ⟨hc, hcol⟩ := List.mem_filter.mp hmem
+      simp only [decide_eq_true_eq] at hcol
+      have hin : TAtom.hold h.offset h.tail (sampleId c.samples dflt h.sample) ∈ items lane := by
+        refine (hitems lane hlane).mem_iff.mpr ?_
+        simp only [laneItems, List.mem_append, List.mem_map]
+        exact Or.inr ⟨h, List.mem_filter.mpr ⟨hc, by simpa using hcol⟩, rfl⟩
+      have t1 := hexact lane hlane _ hin h.offset (by simp [TAtom.times])
+      have t2 := hexact lane hlane _ hin h.tail (by simp [TAtom.times])
+      simp only [Function.comp, t1, t2, hcol]
+    refine (List.Perm.flatMap_left _ hlane).trans ?_
+    have e2 : lay.lanes.flatMap (fun lane => (c.holds.filter (fun h => decide (h.col = lane.2))).map
+        (fun h => (h.offset, (h.col : Int), h.tail - h.offset))) =
+        ((lay.lanes.map (·.2)).flatMap (fun k => c.holds.filter (fun h => decide (h.col = k)))).map
+          (fun h => (h.offset, (h.col : Int), h.tail - h.offset)) := by
+      simp only [List.map_flatMap, List.flatMap_map]
+    rw [e2]
+    exact (flatMap_filter_perm (fun h : WHold => h.col) _ hnd c.holds hcolL).map _
+
+open Reamber.BMS Reamber.PermInv in
+/-- the hypotheses of C05 `bms_write_read` on the chart `c` that is written (the open findings D06 / D35 / D36 / D37 are
+excluded by `hdec` / `hp` / `hR` / `hitems`+`hasc`), plus the exact regime: every object time on the snap grid -/
+structure BMSWritable (cs : List BcSnap) (lay : BMS.Layout) (dflt : BMS.Bytes) (c : BMS.WChart)
+    (items : BMS.Bytes × Nat → List TAtom) : Prop where
+  hwf : wfChanges cs = true
+  hs : strictSnaps cs = true
+  h0 : firstAtZero cs = true
+  hgc : gridCompatible (grid defaultMaxDiv) cs = true
+  hm : metronomeOk cs = true
+  hlay : LayoutOK lay
+  hts : lay.exbpmCh ≠ lay.timeSig ∧ ∀ lane ∈ lay.lanes, lane.1 ≠ lay.timeSig
+  hp : c.bpms.Perm (tmOf 0 cs)
+  hok : BmsOk cs lay c
+  hR : RowsOK (bmsNoteRows cs lay dflt c ++ bmsTempoRows cs lay c)
+  hv : ∀ r ∈ bmsNoteRows cs lay dflt c, r.value ≠ ['0', '0']
+  hH : HeaderOK c
+  hdec : ∀ b ∈ c.bpms, roundDec 3 b.bpm = b.bpm
+  hhdr : ∃ hl, writeHeader c = .ok hl
+  hitems : ∀ lane ∈ lay.lanes, (items lane).Perm (laneItems c dflt lane.2) ∧ (∀ a ∈ items lane, a.idOk c.lnEnd)
+  hasc : ∀ lane ∈ lay.lanes, ((items lane).flatMap TAtom.times).Pairwise (fun a b => a ≤ b)
+  hgrid : ∀ lane ∈ lay.lanes, ∀ a ∈ items lane, ∀ t ∈ a.times, OnGridAt (grid defaultMaxDiv) 0 cs t
+
+open Reamber.BMS Reamber.PermInv in
+/-- **writer link into BMS over the abstract chart, exact regime** (C05 `bms_write_read` + `bms_denoted_objects_exact`):
+the writer succeeds, the written lines have a by-the-book meaning, and its hits and holds are exactly the chart's. -/
+theorem bms_written_objects_exact (cs : List BcSnap) (lay : BMS.Layout) (dflt : BMS.Bytes) (c : BMS.WChart)
+    (items : BMS.Bytes × Nat → List TAtom) (H : BMSWritable cs lay dflt c items) :
+    ∃ lines d, BMS.write defaultGrid lay dflt c = .ok lines ∧ BMS.denote lay lines = some d ∧
+      (ofBMS d).hits.Perm (c.hits.map (fun h => (h.offset, (h.col : Int)))) ∧
+      (ofBMS d).holds.Perm (c.holds.map (fun h => (h.offset, (h.col : Int), h.tail - h.offset))) := by
+  obtain ⟨hl, hhdr⟩ := H.hhdr
+  obtain ⟨lines, d, b0, hw, hd, _, _, hsh, hsl, hh, hlh, htimes⟩ := bms_write_read cs H.hwf H.hs H.h0 H.hgc H.hm lay H.hlay
+    H.hts dflt c H.hp H.hok H.hR H.hv H.hH H.hdec hl hhdr items H.hitems H.hasc
+  obtain ⟨r1, r2⟩ := bms_denoted_objects_exact cs lay H.hlay.cols_nodup dflt c
+    (fun h hh' => col_mem_of_channelOf lay h.col (H.hok.cols.1 h hh'))
+    (fun h hh' => col_mem_of_channelOf lay h.col (H.hok.cols.2 h hh'))
+    items (fun lane hlane => (H.hitems lane hlane).1) d _ hsh hsl hh hlh
+    (fun lane hlane a ha t ht => (htimes lane hlane a ha t ht).2 (H.hgrid lane hlane a ha t ht))
+  exact ⟨lines, d, hw, hd, r1, r2⟩
+
+/-- the in-memory `BMSMap` that is written holds exactly the hit and hold rows of the converted frames (the
+representation glue between C08's frames and C05's chart type; a hold's `length` is `tail − offset`) -/
+def RepresentsBMS (wc : BMS.WChart) (t : Convert.TChart) : Prop :=
+  wc.hits.map (fun h => (h.offset, (h.col : Int))) = (ofTChart t).hits ∧
+  wc.holds.map (fun h => (h.offset, (h.col : Int), h.tail - h.offset)) = (ofTChart t).holds
+
+open Reamber.BMS Reamber.PermInv in
+/-- **convert, then write as BMS — all 17 converter entries, shift parameter included** (`_partial`: objects, exact
+regime; C08 `converters_spec` + C05 `bms_write_read` chained over `AChart`): for every well-formed source, shift argument
+`k`, source map `m` with its converted chart `t`, and every BMS chart `wc` that holds `t`'s rows and satisfies C05's
+hypotheses with all object times on the snap grid (`BMSWritable`): the writer succeeds, the written lines have a
+by-the-book meaning `d`, and `d`'s hits and holds are EXACTLY those of the source map `m` with the columns moved by the
+shift argument (`ObjectsClose` in the exact regime).  `_partial`: the tempo timeline (C05 gives `d.tempo` = header tempo ::
+`cs`; that its normalised timeline is the chart's is not composed), the off-grid regime (C05's bound
+`1/192·activeBeatLen` is not yet related to `tolAt`), the reader link and `RepresentsBMS` are hypotheses. -/
+theorem convert_write_bms_objects_partial : ∀ cv ∈ Generated.converters,
+    ∀ (src : Convert.Src) (k : Int) (out : Convert.Out),
+    (∀ m ∈ src.maps, Convert.srcMapOk m = true) → Convert.convert Convert.tables cv src k = .ok out →
+    ∀ p ∈ src.maps.zip out.pairs, ∀ (cs : List BcSnap) (lay : BMS.Layout) (dflt : BMS.Bytes) (wc : BMS.WChart)
+      (items : BMS.Bytes × Nat → List TAtom), RepresentsBMS wc p.2.2 → BMSWritable cs lay dflt wc items →
+      ∃ lines d, BMS.write defaultGrid lay dflt wc = .ok lines ∧ BMS.denote lay lines = some d ∧
+        ObjectsClose 0 (.beat (1 / 192) (1 / 192)) true 0 (shiftCols (Convert.effShift cv k) (ofSrcMap p.1)) (ofBMS d) := by
+  intro cv hc src k out hsrc hconv p hp cs lay dflt wc items hrep H
+  have hcontent : (src.maps.zip out.pairs).all (fun p => Convert.contentOk (Convert.effShift cv k) p.1 p.2.2) = true :=
+    Convert.convert_content Convert.tables cv src k out (Convert.table_static_ok cv hc) hsrc hconv
+  have hp' := List.all_eq_true.mp hcontent p hp
+  obtain ⟨hh, hl, _⟩ := contentOk_abstract _ _ _ hp'
+  obtain ⟨lines, d, hw, hd, r1, r2⟩ := bms_written_objects_exact cs lay dflt wc items H
+  refine ⟨lines, d, hw, hd, ?_, ?_⟩
+  · exact paired_of_perm_exact _ (fun x => closeHit_exact_refl _ _ x _ _ rfl) _ _ ((r1.trans (List.Perm.of_eq hrep.1)).trans hh)
+  · exact paired_of_perm_exact _ (fun x => closeHold_exact_refl _ x _ _) _ _ ((r2.trans (List.Perm.of_eq hrep.2)).trans hl)
+
+open Reamber.BMS Reamber.PermInv in
+/-- non-vacuity of `BMSWritable`: the chart of C05's own example (two tempo rows in reverse order, a hit and a hold whose
+times 0 and 2000 ms lie on measure lines, layout `PMS_5B`) satisfies every hypothesis, the exact regime included -/
+example : BMSWritable wrExCs wrExLay "01".toList wrExChart (fun lane => laneItems wrExChart "01".toList lane.2) := by
+  have hlay := layouts_ok "PMS_5B" (by decide) wrExLay wrExLay_eq
+  have hts := layouts_timeSig "PMS_5B" (by decide) wrExLay wrExLay_eq
+  have hp : wrExChart.bpms.Perm (tmOf 0 wrExCs) := by rw [wrExCs_tm]; exact List.Perm.swap _ _ _
+  have hok : BmsOk wrExCs wrExLay wrExChart := by
+    refine ⟨by decide +kernel, by decide +kernel, by decide +kernel, by decide +kernel⟩
+  have hR : RowsOK (bmsNoteRows wrExCs wrExLay "01".toList wrExChart ++ bmsTempoRows wrExCs wrExLay wrExChart) := by
+    rw [wrExRows_eq]; exact wrExRowsOK
+  have hv : ∀ r ∈ bmsNoteRows wrExCs wrExLay "01".toList wrExChart, r.value ≠ ['0', '0'] := by
+    intro r hr
+    have : r ∈ wrExRows := by rw [← wrExRows_eq]; exact List.mem_append_left _ hr
+    have hall : ∀ r ∈ wrExRows, r.value ≠ ['0', '0'] := by decide +kernel
+    exact hall r this
+  have hH : HeaderOK wrExChart :=
+    ⟨by intro kv hkv; simp [wrExChart] at hkv, by intro kv hkv; simp [wrExChart] at hkv, by decide +kernel, by decide +kernel, by decide +kernel⟩
+  have hdec : ∀ b ∈ wrExChart.bpms, roundDec 3 b.bpm = b.bpm := by decide +kernel
+  have hhdr : ∃ hl, writeHeader wrExChart = .ok hl := by
+    have h : (writeHeader wrExChart).toOption.isSome = true := by decide +kernel
+    cases hw : writeHeader wrExChart with
+    | ok hl => exact ⟨hl, rfl⟩
+    | error e => rw [hw] at h; cases h
+  have hitems : ∀ lane ∈ wrExLay.lanes, (laneItems wrExChart "01".toList lane.2).Perm (laneItems wrExChart "01".toList lane.2) ∧
+      (∀ a ∈ laneItems wrExChart "01".toList lane.2, a.idOk wrExChart.lnEnd) := by
+    intro lane _
+    refine ⟨List.Perm.refl _, ?_⟩
+    intro a ha
+    simp only [laneItems, List.mem_append, List.mem_map] at ha
+    rcases ha with ⟨h, _, rfl⟩ | ⟨h, _, rfl⟩
+    · simp only [TAtom.idOk, wrExChart, sampleId, List.reverse_nil, List.find?_nil, Option.map_none, Option.getD_none]; decide
+    · simp only [TAtom.idOk, wrExChart, sampleId, List.reverse_nil, List.find?_nil, Option.map_none, Option.getD_none]; decide
+  have hasc : ∀ lane ∈ wrExLay.lanes,
+      ((laneItems wrExChart "01".toList lane.2).flatMap TAtom.times).Pairwise (fun a b => a ≤ b) := by decide +kernel
+  have hz : (0 : Rat) ∈ grid defaultMaxDiv := by
+    have := (gridOK_grid (by decide) : GridOK defaultGrid).zero_mem
+    simpa [defaultGrid] using this
+  have e1 : (0 + snapDist (⟨0, 0, some 4⟩ : Snap) ⟨1, 0, some 4⟩ 4 * beatLen 120 : Rat) = 2000 := by decide +kernel
+  have f1 : frac (((0 : Rat) - 0) / beatLen 120) = 0 := by decide +kernel
+  have f2 : frac (((2000 : Rat) - 2000) / beatLen 60) = 0 := by decide +kernel
+  have g0 : OnGridAt (grid defaultMaxDiv) 0 wrExCs 0 := by
+    refine ⟨by decide +kernel, ?_⟩
+    simp only [onGridAux, e1]
+    rw [if_neg (by decide +kernel), f1]
+    exact hz
+  have g1 : OnGridAt (grid defaultMaxDiv) 0 wrExCs 2000 := by
+    refine ⟨by decide +kernel, ?_⟩
+    simp only [onGridAux, e1]
+    rw [if_pos (by decide +kernel), f2]
+    exact hz
+  have hgrid : ∀ lane ∈ wrExLay.lanes, ∀ a ∈ laneItems wrExChart "01".toList lane.2, ∀ t ∈ a.times,
+      OnGridAt (grid defaultMaxDiv) 0 wrExCs t := by
+    intro lane _ a ha t ht
+    have hts' : t = 0 ∨ t = 2000 := by
+      simp only [laneItems, wrExChart, List.mem_append, List.mem_map, List.mem_filter] at ha
+      rcases ha with ⟨h, ⟨hm, _⟩, rfl⟩ | ⟨h, ⟨hm, _⟩, rfl⟩
+      · simp only [List.mem_cons, List.not_mem_nil, or_false] at hm
+        subst hm
+        simp [TAtom.times] at ht
+        exact Or.inl ht
+      · simp only [List.mem_cons, List.not_mem_nil, or_false] at hm
+        subst hm
+        simp [TAtom.times] at ht
+        exact ht
+    rcases hts' with rfl | rfl
+    · exact g0
+    · exact g1
+  exact ⟨wrExCs_ok.1, wrExCs_ok.2.1, wrExCs_ok.2.2.1, wrExCs_gc, wrExCs_ok.2.2.2, hlay, hts, hp, hok, hR, hv, hH, hdec, hhdr,
+    hitems, hasc, hgrid⟩
+
+def osuToBMS : Convert.Conv := Convert.conv! "OsuToBMS.convert"
+def quaToBMS : Convert.Conv := Convert.conv! "QuaToBMS.convert"
+
+theorem toBMS_entries : osuToBMS ∈ Generated.converters ∧ osuToBMS.name = "OsuToBMS.convert" ∧
+    quaToBMS ∈ Generated.converters ∧ quaToBMS.name = "QuaToBMS.convert" := by
+  decide +kernel
+
+open Reamber.BMS Reamber.PermInv in
+/-- **osu → BMS, end to end, objects, exact regime** (`_partial`; osu text to the written BMS lines; reader C01, converter
+C08 with its `move_right_by` shift, writer C05): let an osu text of the dialect denote `c0` (key count ≥ 1).  Then the
+reader returns `c0`; whenever the converter model's `OsuToBMS.convert` succeeds on the frames of `c0` with shift argument
+`k`, for every converted chart `t` and every BMS chart `wc` that holds `t`'s rows (`RepresentsBMS`) inside C05's domain with
+all object times on the snap grid (`BMSWritable`): the writer succeeds, the written lines have a by-the-book meaning `d`,
+and `d`'s hits and holds are EXACTLY those of the source file with the columns moved by the shift.
+`_partial`: see `convert_write_bms_objects_partial` (tempo timeline, off-grid regime, `RepresentsBMS`). -/
+theorem osu_to_bms_objects_partial (s : Osu.Skeleton) (hwf : s.WF) (lines : List Osu.Str)
+    (hl : lines.map Osu.strip = s.lines) (c0 : Osu.Chart) (hden : Osu.denote lines = .ok c0)
+    (hk : 1 ≤ Osu.pyTrunc c0.md.circleSize) (k : Int) (out : Convert.Out)
+    (hconv : Convert.convert Convert.tables osuToBMS ⟨[], [embOsu c0]⟩ k = .ok out) :
+    Osu.read lines = .ok c0 ∧
+    ∀ p ∈ [embOsu c0].zip out.pairs, ∀ (cs : List BcSnap) (lay : BMS.Layout) (dflt : BMS.Bytes) (wc : BMS.WChart)
+      (items : BMS.Bytes × Nat → List TAtom), RepresentsBMS wc p.2.2 → BMSWritable cs lay dflt wc items →
+      ∃ blines d, BMS.write defaultGrid lay dflt wc = .ok blines ∧ BMS.denote lay blines = some d ∧
+        ObjectsClose 0 (.beat (1 / 192) (1 / 192)) true 0 (shiftCols (Convert.effShift osuToBMS k) (ofOsu c0)) (ofBMS d) := by
+  obtain ⟨hc, _, _, _⟩ := toBMS_entries
+  refine ⟨Osu.read_eq_denote s hwf lines hl c0 hden hk, ?_⟩
+  intro p hp cs lay dflt wc items hrep H
+  have hsrc : ∀ m ∈ (⟨[], [embOsu c0]⟩ : Convert.Src).maps, Convert.srcMapOk m = true := by
+    intro m hm
+    simp only [List.mem_singleton] at hm
+    subst hm
+    exact srcMapOk_embOsu c0
+  have hp1 : p.1 = embOsu c0 := by
+    have := (List.of_mem_zip hp).1
+    simpa using this
+  have := convert_write_bms_objects_partial _ hc _ k out hsrc hconv p hp cs lay dflt wc items hrep H
+  rw [hp1, ofSrcMap_embOsu] at this
+  exact this
+
+open Reamber.BMS Reamber.PermInv in
+/-- **Quaver → BMS, end to end, objects, exact regime** (`_partial` as `osu_to_bms_objects_partial`; reader C06) -/
+theorem qua_to_bms_objects_partial (d0 : Qua.Doc) (hdecl : Qua.Spec.objsDeclared d0 = true) (c0 : Qua.Chart)
+    (hden : Qua.Spec.denote d0 = .ok c0) (k : Int) (out : Convert.Out)
+    (hconv : Convert.convert Convert.tables quaToBMS ⟨[], [embQua c0]⟩ k = .ok out) :
+    Qua.read d0 = .ok c0 ∧
+    ∀ p ∈ [embQua c0].zip out.pairs, ∀ (cs : List BcSnap) (lay : BMS.Layout) (dflt : BMS.Bytes) (wc : BMS.WChart)
+      (items : BMS.Bytes × Nat → List TAtom), RepresentsBMS wc p.2.2 → BMSWritable cs lay dflt wc items →
+      ∃ blines d, BMS.write defaultGrid lay dflt wc = .ok blines ∧ BMS.denote lay blines = some d ∧
+        ObjectsClose 0 (.beat (1 / 192) (1 / 192)) true 0 (shiftCols (Convert.effShift quaToBMS k) (ofQua c0)) (ofBMS d) := by
+  obtain ⟨_, _, hc, _⟩ := toBMS_entries
+  refine ⟨by rw [Qua.qua_read_defaults d0 hdecl]; exact hden, ?_⟩
+  intro p hp cs lay dflt wc items hrep H
+  have hsrc : ∀ m ∈ (⟨[], [embQua c0]⟩ : Convert.Src).maps, Convert.srcMapOk m = true := by
+    intro m hm
+    simp only [List.mem_singleton] at hm
+    subst hm
+    exact srcMapOk_embQua c0
+  have hp1 : p.1 = embQua c0 := by
+    have := (List.of_mem_zip hp).1
+    simpa using this
+  have := convert_write_bms_objects_partial _ hc _ k out hsrc hconv p hp cs lay dflt wc items hrep H
+  rw [hp1, ofSrcMap_embQua] at this
+  exact this
+
+/-- non-vacuity of the converter hypotheses: on the frames of a small osu chart `OsuToBMS.convert` (shift 1) succeeds and
+the converted chart holds the chart's rows one column to the right -/
+example :
+    let c : Osu.Chart := { hits := [{ offset := 0, column := 0 }], bpms := [⟨0, 120, 4, 0, 0, 0, false⟩] }
+    (match Convert.convert Convert.tables osuToBMS ⟨[], [embOsu c]⟩ 1 with
+     | .ok out => out.charts.map (fun t => (ofTChart t).hits) == [[(0, 1)]]
+     | .error _ => false) = true := by decide +kernel
 
 end Reamber.Pipeline
